@@ -123,6 +123,9 @@ def _decide_type_tests(program, t, e, ty):
             return T.C((ty == 'NoneType') == (x[1] in ('Eq', 'Is')))
         if x[0] == 'call' and x[1] == T.G('tuple') and len(x[2]) == 1 and x[2][0] == e and not x[3] and ty == 'tuple':
             return e
+        if x[0] == 'call' and x[1] in (T.G('numpy.asarray'), T.G('numpy.asanyarray')) and len(x[2]) == 1 and x[2][0] == e \
+                and not x[3] and ty == 'numpy.ndarray':
+            return e                    # an array passes through asarray / asanyarray as it is
         return None
     t = T.replace(t, f)
     if ty == 'NoneType':
@@ -233,6 +236,17 @@ class Contracts:
                     return ('raise', T.G('Exception'), t[2])
                 return None
             cterm, rterm = T.replace(cterm, anyexc), T.replace(rterm, anyexc)
+
+            # ... and a `try` all of whose handlers do nothing but raise (exception translation: `except TypeError as e: raise
+            # ValueError(..) from e`) then behaves like its body
+            def untry(t):
+                inbody = {e for x in T.walk(t[1]) if x[0] in ('ret', 'raise') and len(x) == 3 for e in x[2]} if t[0] == 'try' else set()
+                if t[0] == 'try' and t[2] and all(h[2][0] == 'raise' and all(e in inbody for e in h[2][2]) for h in t[2]):
+                    def unmark(x):
+                        return x[1] if x[0] in ('after_try', 'intry', 'pretry') and len(x) == 2 else None
+                    return T.replace(t[1], unmark)
+                return None
+            cterm, rterm = T.replace(cterm, untry), T.replace(rterm, untry)
         if meta.get("ignore_stores") and cl.params:
             # a store that is itself the subject of another property's finding (C09: assume() writes self.variable) is not part
             # of this contract: code with and without it is accepted here, the purity check reports it
@@ -286,7 +300,10 @@ class Contracts:
         rdef = ('dict', tuple(('kw', T.C(k2), v) for (k, v), k2 in zip(rl.defaults(), [k for k, _ in cd])))
         if len(cd) != len(rl.defaults()):
             rdef = ('dict', tuple(('kw', T.C(k), v) for k, v in rl.defaults()))
-        decs = lambda fi: ('list', tuple(T.G(d or '?') for d in fi.decorators))
+        # `@staticmethod` on a function whose first parameter is not self / cls only changes what a call *on an instance* does
+        # (it used to pass the instance as the first argument); calls through the class - the only ones that worked - are the same
+        nostatic = bool(cl.params) and cl.params[0] not in ('self', 'cls') and bool(rl.params) and rl.param_names[0] not in ('self', 'cls')
+        decs = lambda fi: ('list', tuple(T.G(d or '?') for d in fi.decorators if not (nostatic and d == 'staticmethod')))
         cfull = ('tuple', (decs(cfi), cdef, cterm))
         rfull = ('tuple', (decs(rfi), rdef, rterm))
         split = meta.get("split")
